@@ -19,7 +19,8 @@ FreshLike(s, ver) ==
 (* one public call on a state: [st, out, call (with results filled in)] *)
 Apply(s, c) ==
   CASE c.op = "send"   -> LET r == Send(s, c.pkt) IN [st |-> r.st, out |-> r.out, call |-> c]
-    [] c.op = "recv"   -> LET r == RecvComplete(s, c.pkt) IN [st |-> r.st, out |-> r.out, call |-> c]
+    [] c.op = "recv"   -> LET r == IF c.flag THEN RecvComplete(s, c.pkt) ELSE RecvPartial(s)
+                          IN  [st |-> r.st, out |-> r.out, call |-> c]
     [] c.op = "garbage" -> LET r == RecvFramingError(s) IN [st |-> r.st, out |-> r.out, call |-> c]
     [] c.op = "fire"   -> LET r == TimerFired(s, c.k) IN [st |-> r.st, out |-> r.out, call |-> c]
     [] c.op \in {"closed", "crash"} -> LET r == NotifyClosed(s) IN [st |-> r.st, out |-> r.out, call |-> c]
